@@ -486,6 +486,52 @@ service S {
 			one("keywords", "union U {\n  1: required string a,\n  2: optional i32 b,\n  3: bool c\n}\n", unionDecl),
 		}})
 
+	tdbl := idl.T("double")
+	padStruct := mstruct("S",
+		&idl.Field{ID: 1, Name: "a", Type: tI32, Default: int64(100)},
+		&idl.Field{ID: 10, Name: "b", Req: idl.ReqOptional, Type: tI32, Default: int64(-100)},
+		&idl.Field{ID: 11, Name: "c", Type: tdbl, Default: float64(7.5)})
+	padSvc := mservice("V", &idl.Method{Name: "f", Args: []*idl.Field{mfield(1, tI32, "x"), mfield(9, tI32, "y")}, Throws: []*idl.Field{mfield(1, idl.T("X"), "e")}})
+	add(lexClass{Class: "zero_padded_integers", Pinned: "passes",
+		Rule: "Thrift integers are decimal ([+-]?[0-9]+ read base 10): leading zeros change nothing, 010 is ten and 09 is nine, in constant values, list / map elements, enum values, field ids, defaults and exponents of doubles",
+		Variants: []lexVariant{one("everywhere", `const i32 ZIP = 010
+const i32 NEG = -0012
+const i64 NINE = 09
+const i32 P = +007
+const list<i32> CODES = [007, 010, 0089, 100]
+const map<i32,i32> M = {01: 010, 002: -03}
+const double D = 1.5e08
+const double E = 01.50
+const double F = -00.25E-03
+const double G = 2.5e+007
+
+enum E1 {
+  LOW = 001,
+  MID = 010,
+  HIGH
+}
+
+exception X {
+}
+
+struct S {
+  01: i32 a = 0100,
+  010: optional i32 b = -0100,
+  0011: double c = 007.5
+}
+
+service V {
+  void f(01: i32 x, 09: i32 y) throws (001: X e)
+}
+`,
+			mconst(tI32, "ZIP", int64(10)), mconst(tI32, "NEG", int64(-12)), mconst(idl.T("i64"), "NINE", int64(9)), mconst(tI32, "P", int64(7)),
+			mconst(idl.ListOf(tI32), "CODES", []interface{}{int64(7), int64(10), int64(89), int64(100)}),
+			mconst(idl.MapOf(tI32, tI32), "M", []idl.KV{{Key: int64(1), Value: int64(10)}, {Key: int64(2), Value: int64(-3)}}),
+			mconst(tdbl, "D", float64(1.5e8)), mconst(tdbl, "E", float64(1.5)), mconst(tdbl, "F", float64(-0.25e-3)), mconst(tdbl, "G", float64(2.5e7)),
+			menum("E1", &idl.EnumValue{Name: "LOW", Value: 1, Explicit: true}, &idl.EnumValue{Name: "MID", Value: 10, Explicit: true}, mval("HIGH", 11)),
+			mexception("X"), padStruct, padSvc,
+		)}})
+
 	td := idl.T("double")
 	add(lexClass{Class: "numeric_constant_forms", Pinned: "passes",
 		Rule: "signed integers, doubles with fraction and exponent, leading or trailing '.'",
